@@ -10,7 +10,7 @@ ENGINES = {
  "leak": ("harness/src/leak.rs + vlib/leakeng.py + tools/gen_leak.py", "tracing capture + Display/Debug rendering of returned values under canary scenarios, mapped onto regenerated Lean tables"),
  "atrest": ("harness/src/atrest.rs + vlib/atresteng.py + lean/Driver/AtrestDrv.lean", "constructor x file-state x keyring-state matrix against a mock keyring-core store, concurrent first opens, canary byte scan, mode bits"),
  "conc": ("harness/src/conc.rs + vlib/conceng.py", "N threads on one shared backend instance; linearizability search certified on the Lean model; stress oracles"),
- "crash": ("harness/src/crash.rs + vlib/crasheng.py", "simulated process death at every storage tick of every call on a file-backed sqlite store"),
+ "crash": ("harness/src/crash.rs + vlib/crasheng.py + harness/src/crashw.rs + vlib/crashweng.py + vlib/c12core.py + lean/Driver/CrashCoreDrv.lean", "simulated process death at every storage tick of every storage call AND of every mdk-core call (process_message, merge_pending_commit, welcomes, local operations) on a file-backed sqlite store, reopen, loadability + recovery oracle; crash-class sequences compared with Model.CrashCore"),
  "codec": ("harness/src/codec.rs + vlib/codeceng.py + lean/Driver/CodecDrv.lean", "correspondence + oracle engine over the real (de)serialisers of mdk-core; generated values and every single-field mutation"),
  "invite": ("harness/src/invite.rs (on harness/src/world.rs) + vlib/inviteeng.py + vlib/check_C16.py + lean/Driver/InviteDrv.lean", "invitation histories on real MDK instances replayed on Model.Welcome; oracle on the implementation's own views"),
  "world": ("harness/src/world.rs + vlib/worldeng.py + vlib/check_world.py + lean/Driver/WorldDrv.lean", "2..6 real MDK instances (memory/SQLite), pool of wrapper events, scheduled deliveries with duplication/reordering/restarts, replayed step by step on Model.Client; convergence / frame / sync / duplicate oracles"),
